@@ -71,7 +71,23 @@ class UniformPrior(Prior, Uniform):
     def __init__(self, a, b, validate_args=None, transform=None):
         TModule.__init__(self)
         Uniform.__init__(self, a, b, validate_args=validate_args)
+        _bufferize_attributes(self, ("low", "high"))
         self._transform = transform
+
+    def _load_from_state_dict(
+        self, state_dict, prefix, local_metadata, strict, missing_keys, unexpected_keys, error_msgs
+    ):
+        # The low and high buffers are new, and so may not be present in older state dicts (the values passed to the
+        # constructor are kept then). Because of this, we won't have strict-mode on when loading this module
+        return super()._load_from_state_dict(
+            state_dict=state_dict,
+            prefix=prefix,
+            local_metadata=local_metadata,
+            strict=False,
+            missing_keys=missing_keys,
+            unexpected_keys=unexpected_keys,
+            error_msgs=error_msgs,
+        )
 
     def expand(self, batch_shape):
         batch_shape = torch.Size(batch_shape)
